@@ -134,3 +134,39 @@ __CPROVER_ensures((__CPROVER_old(FR_FUTURE(me)) != 0 && gh_rs_cf >= 4) ==> (gh_s
 __CPROVER_ensures((__CPROVER_old(FR_FUTURE(me)) != 0 && gh_rs_cf == 2) ==> gh_sn_calls == 0)
 ;
 #endif
+
+/* the same contract enforced on a fixed-signature wrapper (drivers/c04_async.cpp: drv_caw_suspend_any), so that a rewrite which changes the
+ * member's return type is still decided; plus: NOTHING runs inside await_suspend - the child is started by symmetric transfer when it
+ * returns, not by a nested resume() (no native stack is consumed per co_await: "for every nesting depth of co_await chains") */
+#ifdef CV_HAS_caw_suspend_any
+int gh_direct_resumes;
+#ifdef CV_HAS_ch_resume_stub
+void ch_resume_stub(void *h) { gh_direct_resumes++; }
+#endif
+cv_i8 *caw_suspend_any(CAW *this_, cv_i8 *h)
+__CPROVER_requires(cv_exc_pending == 0 && gh_direct_resumes == 0 && __CPROVER_is_fresh(this_, sizeof(*this_)) && FR_FRESH(this_->base_awaiter._handle_addr) && h != 0)
+__CPROVER_assigns(__CPROVER_object_whole(this_), __CPROVER_object_whole(this_->base_awaiter._handle_addr), gh_direct_resumes)
+__CPROVER_ensures(cv_exc_pending == 0 && gh_direct_resumes == 0)                                                          /* nothing is resumed inside */
+__CPROVER_ensures(__CPROVER_return_value == __CPROVER_old(this_->base_awaiter._handle_addr))                              /* symmetric transfer to the child */
+__CPROVER_ensures(FR_FUTURE(__CPROVER_old(this_->base_awaiter._handle_addr)) == &this_->base_future)                      /* result goes to the awaiting party, nobody else */
+__CPROVER_ensures(this_->base_future.base_future_common._awaiter._M_b._M_p == &this_->base_awaiter)
+__CPROVER_ensures(this_->base_awaiter._handle_addr == h && this_->base_awaiter._resume_fn == 0)
+__CPROVER_ensures(gh_allocs == __CPROVER_old(gh_allocs))
+;
+void h_caw_suspend_any(void) { CAW *c; cv_i8 *h; caw_suspend_any(c, h); __CPROVER_assert(0, "SENTINEL reachable"); }
+#endif
+/* async_promise::unhandled_exception(): the exception goes to the bound future iff there is one - NOBODY when detached */
+#ifdef CV_HAS_ap_unhandled
+int gh_se_calls; void *gh_se_this;
+#ifdef CV_HAS_fu_set_exc_stub
+void fu_set_exc_stub(FUT *f, void *eptr) { gh_se_calls++; gh_se_this = f; }
+#endif
+void ap_unhandled(APR *this_)
+__CPROVER_requires(gh_se_calls == 0 && cv_caught_n == 0 && cv_exc_pending == 0 && __CPROVER_is_fresh(this_, sizeof(*this_)))       /* (the model's current_exception() is null outside a handler - irrelevant here) */
+__CPROVER_requires(this_->_future != 0 ==> __CPROVER_is_fresh(this_->_future, sizeof(FUT)))
+__CPROVER_assigns(gh_se_calls, gh_se_this, gh_ep_addref, gh_ep_release)
+__CPROVER_ensures(this_->_future == 0 ==> gh_se_calls == 0)                                              /* detached: the exception reaches nobody, nothing is touched */
+__CPROVER_ensures(this_->_future != 0 ==> (gh_se_calls == 1 && gh_se_this == (void *)this_->_future))   /* bound: exactly the bound future receives it, once */
+;
+void h_ap_unhandled(void) { APR *p; ap_unhandled(p); __CPROVER_assert(0, "SENTINEL reachable"); }
+#endif
